@@ -1356,6 +1356,8 @@ def mon_c15(w, F, vd):
         for (pi, pt, wh) in pings:
             if end_ei is not None and pi > end_ei:
                 break
+            if t_end is not None and t_end - pt <= EPS:
+                continue          # written in the very instant the connection ended: nobody could have answered it
             inside = [r for r in resps if r[0] > pi and r[1] < pt + k - EPS]
             edge = [r for r in resps if r[0] > pi and abs(r[1] - (pt + k)) <= EPS]
             if not inside:
